@@ -1,12 +1,15 @@
 (* C08 - RING fragment matching returns exactly the embeddings it denotes.
-   Statements only (lemmas in Graph/Match_proofs.v).  PARTIAL: soundness
-   ("nothing violating the pattern is returned") is proved in full for every
-   fragment and molecule; completeness is proved relative to the raw
-   embedding enumeration (filters drop nothing that passes) - completeness of
-   the enumeration itself, layout and label independence are decided by the
-   bounded-exhaustive correspondence and the variant oracle of this check. *)
-From Coq Require Import List NArith ZArith Arith Bool.
-From PG Require Import Common.Strs Graph.Mol Graph.Match Graph.Match_proofs.
+   Statements only (lemmas in Graph/Match_proofs.v, Ring/Reader_proofs.v).
+   Soundness AND completeness are proved for every fragment the reader accepts
+   and every molecule: a tuple is returned iff it is an embedding the fragment
+   denotes (declarative `Denotes`: distinct atoms of the declared classes,
+   every declared bond present with a matching type - no reference to
+   enumeration order) that passes the molecule prefix and the bond / atom /
+   stereo constraints; and no tuple is returned twice.  Layout and label
+   independence of the READER (text -> fragment) are decided by the variant
+   oracle and the correspondence of this check. *)
+From Coq Require Import List NArith ZArith Arith Bool Lia.
+From PG Require Import Common.Strs Ring.Peg Ring.Reader Ring.Reader_proofs Graph.Mol Graph.Match Graph.Match_proofs.
 Import ListNotations.
 
 Theorem C08_matches_sound : forall f m img, In img (matches f m) ->
@@ -44,6 +47,36 @@ Theorem C08_matches_complete_wrt_raw : forall f m img,
 Proof. exact matches_complete_wrt_raw. Qed.
 Print Assumptions C08_matches_complete_wrt_raw.
 
+(* the enumeration returns exactly the legally placed tuples *)
+Theorem C08_raw_embeddings_exact : forall f m img,
+  In img (raw_embeddings f m) <-> length img = length (f_atoms f) /\ placed f m (f_atoms f) img.
+Proof. exact raw_embeddings_iff. Qed.
+Print Assumptions C08_raw_embeddings_exact.
+
+(* EXACTLY the denoted embeddings: for every fragment the reader accepts *)
+Theorem C08_matches_exactly_denoted : forall elements xlower t f m img,
+  read_fragment elements xlower t = ROk' f ->
+  (In img (matches f m) <->
+   forallb (mcon_ok m) (f_mol f) = true /\ Denotes f m img
+   /\ bcons_ok f m img = true /\ acons_ok f m img = true /\ scons_ok f m img = true).
+Proof. intros elements xlower t f m img H. apply matches_iff. eapply read_fragment_wf; eauto. Qed.
+Print Assumptions C08_matches_exactly_denoted.
+
+Theorem C08_matches_iff_wf : forall f m img, wf_bonds f ->
+  (In img (matches f m) <->
+   forallb (mcon_ok m) (f_mol f) = true /\ Denotes f m img
+   /\ bcons_ok f m img = true /\ acons_ok f m img = true /\ scons_ok f m img = true).
+Proof. exact matches_iff. Qed.
+
+Theorem C08_reader_fragments_wellformed : forall elements xlower t f,
+  read_fragment elements xlower t = ROk' f -> wf_bonds f.
+Proof. exact read_fragment_wf. Qed.
+
+(* no embedding is reported twice *)
+Theorem C08_matches_nodup : forall f m, NoDup (matches f m).
+Proof. exact matches_nodup. Qed.
+Print Assumptions C08_matches_nodup.
+
 (* non-vacuity: C-C in ethane's heavy-atom skeleton matches both ways *)
 Definition cc : fragment :=
   {| f_atoms := [{| qa_sym := SElem 6; qa_chg := Some 0%Z |}; {| qa_sym := SElem 6; qa_chg := Some 0%Z |}];
@@ -54,3 +87,11 @@ Definition skel : mol :=
      bonds := [{| b_u := 0; b_v := 1; b_t := BtSingle; b_st := StNone; b_sa := [] |}]; rings := [] |}.
 Example C08_example : matches cc skel = [[0; 1]; [1; 0]].
 Proof. vm_compute. reflexivity. Qed.
+
+Example C08_example_wf : wf_bonds cc.
+Proof. intros i j t [H|[]]. inversion H; subst. simpl. repeat split; lia. Qed.
+Example C08_example_denotes : Denotes cc skel [1; 0].
+Proof.
+  apply placed_denotes; [exact C08_example_wf|reflexivity|].
+  apply raw_embeddings_sound. vm_compute. right. left. reflexivity.
+Qed.
